@@ -145,3 +145,6 @@ for _name, _cond in [('valid_integer', 'True'), ('valid_non_negative_integer', '
     axiom('conforms', 'DEF-conforms[%s]' % _name,
           "forall(lambda v: conforms(%r, v) == (%s and (%s)), 'Val')" % (_name, _PARSES, _cond), modname='saml2_tophat.validate')
 INTEGER_VALIDATORS = [V + n for n in ('valid_integer', 'valid_non_negative_integer', 'valid_positive_integer', 'valid_unsigned_byte')]
+axiom('conforms', 'DEF-conforms[valid_boolean]',
+      "forall(lambda v: conforms('valid_boolean', v) == (is_str(v) and (lower(str_of(v)) == 'true' or lower(str_of(v)) == 'false' or "
+      "lower(str_of(v)) == '0' or lower(str_of(v)) == '1')), 'Val')", modname='saml2_tophat.validate')
